@@ -219,6 +219,9 @@ def _hook_protocol(f: Fn, hook: str) -> Tuple[Optional[str], Optional[str], Opti
     """(own-definition test kind, what the ancestor loop ranges over, ancestor filter kind, detail) of a hook-applying function,
     with the class parameter written as CLS"""
     calls = [c for c in f.walk() if isinstance(c, ast.Call) and isinstance(c.func, ast.Attribute) and c.func.attr == hook]
+    # alternative spellings of the one call on the same receiver (chosen by the hook's signature) are one call site
+    if len(calls) > 1 and len({norm(c.func) for c in calls}) == 1:
+        calls = calls[:1]
     if len(calls) != 1:
         return None, None, None, '%d calls of %s' % (len(calls), hook)
     c = calls[0]
